@@ -371,9 +371,9 @@ Proof.
       * rewrite upd_other in Hs by auto. rewrite upd_other by auto. eauto.
     + (* decide *) destruct (Nat.eq_dec u t) as [->|N].
       * same_prog. destruct b; simpl.
-        -- destruct (w_eager w) eqn:E; simpl; [|apply upd_same].
-           apply (IH t w); auto.
-        -- apply (IH t w); auto. left. rewrite H0. reflexivity.
+        -- match goal with |- context [w_eager ?x] => destruct (w_eager x) eqn:E end; simpl; [|apply upd_same].
+           eapply IH; eauto.
+        -- eapply IH; eauto. left. rewrite H0. reflexivity.
       * rewrite upd_other in Hs by auto.
         assert (helper s u = true) by eauto.
         destruct (b && negb (w_eager w)); [rewrite upd_other by auto|]; auto.
@@ -459,8 +459,7 @@ Proof.
          [rewrite upd_same in Hd; try discriminate|rewrite upd_other in Hd by auto]); auto.
   - apply IH. destruct (sigs_cases _ _ _ t H2) as [E|[_ E]]; congruence.
   - apply IH. destruct (sigs_cases _ _ _ t H3) as [E|[_ E]]; congruence.
-  - apply upd_same.
-  - rewrite upd_other by auto. auto.
+  - unfold upd. destruct (Nat.eqb_spec t t0); auto.
   - apply IH. destruct (wake_all_cases c (thr s) t) as [E|(_ & _ & E)]; congruence.
 Qed.
 
